@@ -25,7 +25,7 @@ theorem lookup_append (k : α) (l m : List (α × β)) :
     simp only [List.cons_append, lookup_cons]
     split <;> simp [ih]
 
-theorem lookup_mem [LawfulBEq α] {k : α} {v : β} {l : List (α × β)} :
+theorem lookup_some_mem [LawfulBEq α] {k : α} {v : β} {l : List (α × β)} :
     lookup k l = some v → (k, v) ∈ l := by
   induction l with
   | nil => simp [lookup_nil]
@@ -241,7 +241,7 @@ theorem Inv.init : Inv (CfgState.init, []) where
     intro r hr
     obtain ⟨v, hv⟩ := Option.isSome_iff_exists.mp hr
     have h : ∀ p ∈ CfgState.init.dicts, p.1 < CfgState.init.nextId := by decide
-    exact h _ (lookup_mem hv)
+    exact h _ (lookup_some_mem hv)
   setsLt := by simp [CfgState.init, lookup_nil]
   curLive := by decide
   preLive := by decide
@@ -605,7 +605,7 @@ theorem CacheSound.cachedCapacity {st : CfgState} (h : CacheSound st) (e : Str) 
   unfold SV.cachedCapacity
   split
   · rename_i v hv
-    have hm := lookup_mem hv
+    have hm := lookup_some_mem hv
     constructor
     · intro p hp
       simp only [List.mem_append, List.mem_filter, List.mem_singleton] at hp
@@ -800,7 +800,7 @@ theorem Inv.lookup_preset {s : Cfg} (h : Inv s) (n : Str) :
   cases hl : lookup n CfgState.init.presets with
   | none => rfl
   | some r =>
-    have hm : (n, r) ∈ s.1.presets := by rw [h.presetsEq]; exact lookup_mem hl
+    have hm : (n, r) ∈ s.1.presets := by rw [h.presetsEq]; exact lookup_some_mem hl
     simp [h.presetsVal _ hm]
 
 /-- handles to dict objects are pairwise distinct objects -/
@@ -1036,7 +1036,7 @@ theorem cachedCapacity_snd {st : CfgState} (hc : CacheSound st) (e : Str) (c : I
   unfold SV.cachedCapacity
   split
   · rename_i v hv
-    exact (hc.1 _ (lookup_mem hv)).symm
+    exact (hc.1 _ (lookup_some_mem hv)).symm
   · split <;> simp_all
 
 theorem validateDict_nil : validateDict [] = some .ValueError := rfl
@@ -1222,18 +1222,24 @@ theorem findChar_lt {c : Char} {s : Str} {i : Nat} (h : findChar c s = some i) :
   obtain ⟨pre, post, h1, h2, _⟩ := findChar_eq_some h
   subst h1; simp; omega
 
-/-- the `C` of a key `E+C` / `E-C`: matches `[1-9][0-9]*` -/
+/-- the `C` of a key `E+C` / `E-C`: matches `[1-9][0-9]*` and is convertible by `int()`, i.e. has
+    at most `Gen.intMaxStrDigits` (= `sys.get_int_max_str_digits()`) digits (repair of F10) -/
 def IsCharge (t : Str) : Prop :=
-  ∃ d ds, t = d :: ds ∧ isDigit19 d = true ∧ ∀ c ∈ ds, isAsciiDigit c = true
+  ∃ d ds, t = d :: ds ∧ isDigit19 d = true ∧ (∀ c ∈ ds, isAsciiDigit c = true) ∧
+    t.length ≤ Gen.intMaxStrDigits
 
 theorem isCharge_nil : ¬ IsCharge [] := by simp [IsCharge]
 
 theorem isCharge_cons (d : Char) (ds : Str) :
-    IsCharge (d :: ds) ↔ isDigit19 d = true ∧ ∀ c ∈ ds, isAsciiDigit c = true := by
+    IsCharge (d :: ds) ↔ isDigit19 d = true ∧ (∀ c ∈ ds, isAsciiDigit c = true) ∧
+      (d :: ds).length ≤ Gen.intMaxStrDigits := by
   constructor
-  · rintro ⟨d', ds', h, h1, h2⟩
-    cases h; exact ⟨h1, h2⟩
-  · rintro ⟨h1, h2⟩; exact ⟨d, ds, rfl, h1, h2⟩
+  · rintro ⟨d', ds', h, h1, h2, h3⟩
+    cases h; exact ⟨h1, h2, h3⟩
+  · rintro ⟨h1, h2, h3⟩; exact ⟨d, ds, rfl, h1, h2, h3⟩
+
+theorem IsCharge.length_le {t : Str} (h : IsCharge t) : t.length ≤ Gen.intMaxStrDigits := by
+  obtain ⟨_, _, _, _, _, h3⟩ := h; exact h3
 
 theorem isAsciiDigit_ne_sign {c : Char} (h : isAsciiDigit c = true) : c ≠ '+' ∧ c ≠ '-' := by
   constructor <;> rintro rfl <;> revert h <;> decide
@@ -1242,7 +1248,7 @@ theorem isDigit19_ne_sign {c : Char} (h : isDigit19 c = true) : c ≠ '+' ∧ c 
   constructor <;> rintro rfl <;> revert h <;> decide
 
 theorem IsCharge.no_sign {t : Str} (h : IsCharge t) : '+' ∉ t ∧ '-' ∉ t := by
-  obtain ⟨d, ds, rfl, h1, h2⟩ := h
+  obtain ⟨d, ds, rfl, h1, h2, _⟩ := h
   have := isDigit19_ne_sign h1
   constructor <;> simp only [List.mem_cons, not_or] <;> refine ⟨?_, ?_⟩
   · exact fun e => this.1 e.symm
@@ -1252,7 +1258,8 @@ theorem IsCharge.no_sign {t : Str} (h : IsCharge t) : '+' ∉ t ∧ '-' ∉ t :=
 
 /-- The key grammar accepted by `set_semantic_constraints`, spelled out.
     The code splits a key at `j = max(key.find("+"), key.find("-"))`, i.e. at the LAST of the
-    first `+` and the first `-`; the part after `j` must match `[1-9][0-9]*` and so contains no
+    first `+` and the first `-`; the part after `j` must match `[1-9][0-9]*` (and have at most
+    `Gen.intMaxStrDigits` digits, so that `int()` converts it: `IsCharge`) and so contains no
     sign, hence in an accepted key the split point is the last sign character of the key and it
     is at the same time the first occurrence of that sign (`sign ∉ E`). -/
 def ValidKeySpec (key : Str) : Prop :=
@@ -1261,7 +1268,7 @@ def ValidKeySpec (key : Str) : Prop :=
   ∃ E sign C, key = E ++ sign :: C ∧ (sign = '+' ∨ sign = '-') ∧ sign ∉ E ∧
     E ∈ Gen.elements ∧ IsCharge C
 
-theorem memStr_iff (s : Str) (l : List Str) : memStr s l = true ↔ s ∈ l := by
+theorem memStr_iff_mem (s : Str) (l : List Str) : memStr s l = true ↔ s ∈ l := by
   simp [memStr]
 
 theorem validKey_of_split {E C : Str} {sign : Char} (hs : sign = '+' ∨ sign = '-')
@@ -1274,12 +1281,14 @@ theorem validKey_of_split {E C : Str} {sign : Char} (hs : sign = '+' ∨ sign = 
     rw [this]; exact List.drop_left' (by simp)
   have hfin : (memStr ((E ++ sign :: C).take E.length) Gen.elements &&
       (match (E ++ sign :: C).drop (E.length + 1) with
-        | d :: ds => isDigit19 d && ds.all isAsciiDigit
+        | d :: ds => isDigit19 d && ds.all isAsciiDigit &&
+                     decide ((d :: ds).length ≤ Gen.intMaxStrDigits)
         | [] => false)) = true := by
-    rw [htake, hdrop, Bool.and_eq_true, memStr_iff]
+    rw [htake, hdrop, Bool.and_eq_true, memStr_iff_mem]
     refine ⟨hel, ?_⟩
-    obtain ⟨d, ds, rfl, h1, h2⟩ := hC
-    simp only [h1, Bool.true_and, List.all_eq_true]; exact h2
+    obtain ⟨d, ds, rfl, h1, h2, h3⟩ := hC
+    simp only [h1, Bool.true_and, Bool.and_eq_true, List.all_eq_true, decide_eq_true_eq]
+    exact ⟨h2, h3⟩
   -- the other sign, if present at all, occurs before the split point
   have hother : ∀ o : Char, o ≠ sign → o ∉ C →
       findChar o (E ++ sign :: C) = none ∨ ∃ b, findChar o (E ++ sign :: C) = some b ∧ b < E.length := by
@@ -1307,7 +1316,8 @@ theorem validKey_of_split {E C : Str} {sign : Char} (hs : sign = '+' ∨ sign = 
 theorem split_of_check {key : Str} {sign : Char} {j : Nat} (hf : findChar sign key = some j)
     (h : (memStr (key.take j) Gen.elements &&
       (match key.drop (j + 1) with
-        | d :: ds => isDigit19 d && ds.all isAsciiDigit
+        | d :: ds => isDigit19 d && ds.all isAsciiDigit &&
+                     decide ((d :: ds).length ≤ Gen.intMaxStrDigits)
         | [] => false)) = true) :
     ∃ E C, key = E ++ sign :: C ∧ sign ∉ E ∧ E ∈ Gen.elements ∧ IsCharge C := by
   obtain ⟨pre, post, h1, h2, h3⟩ := findChar_eq_some hf
@@ -1316,14 +1326,14 @@ theorem split_of_check {key : Str} {sign : Char} {j : Nat} (hf : findChar sign k
   have hdrop : (pre ++ sign :: post).drop (j + 1) = post := by
     have : pre ++ sign :: post = (pre ++ [sign]) ++ post := by simp
     rw [this]; exact List.drop_left' (by simp [h2])
-  rw [htake, hdrop, Bool.and_eq_true, memStr_iff] at h
+  rw [htake, hdrop, Bool.and_eq_true, memStr_iff_mem] at h
   refine ⟨pre, post, rfl, h3, h.1, ?_⟩
   cases post with
   | nil => simp at h
   | cons d ds =>
     have h' := h.2
-    simp only [Bool.and_eq_true, List.all_eq_true] at h'
-    exact (isCharge_cons d ds).mpr h'
+    simp only [Bool.and_eq_true, List.all_eq_true, decide_eq_true_eq] at h'
+    exact (isCharge_cons d ds).mpr ⟨h'.1.1, h'.1.2, h'.2⟩
 
 theorem validKey_iff (key : Str) : validKey key = true ↔ ValidKeySpec key := by
   constructor
@@ -1339,7 +1349,7 @@ theorem validKey_iff (key : Str) : validKey key = true ↔ ValidKeySpec key := b
         cases hm : findChar '-' key with
         | none =>
           rw [hp, hm] at h
-          exact .inl ⟨findChar_eq_none.mp hp, findChar_eq_none.mp hm, (memStr_iff _ _).mp h⟩
+          exact .inl ⟨findChar_eq_none.mp hp, findChar_eq_none.mp hm, (memStr_iff_mem _ _).mp h⟩
         | some b =>
           rw [hp, hm] at h
           obtain ⟨E, C, h1, h2, h3, h4⟩ := split_of_check hm h
@@ -1366,7 +1376,7 @@ theorem validKey_iff (key : Str) : validKey key = true ↔ ValidKeySpec key := b
       simp only [findChar_eq_none.mpr h1, findChar_eq_none.mpr h2]
       split
       · rfl
-      · exact (memStr_iff _ _).mpr h3
+      · exact (memStr_iff_mem _ _).mpr h3
     · exact validKey_of_split hs hE hel hC
 
 /-- side condition on the generated `ELEMENTS`: no element symbol contains a sign -/
@@ -1521,7 +1531,7 @@ def Coherent (st : CfgState) : Prop :=
   st.capCache.length ≤ 128
 
 theorem CacheSound.coherent {st : CfgState} (h : CacheSound st) : Coherent st :=
-  ⟨fun _ _ _ hv => h.1 _ (lookup_mem hv), h.2⟩
+  ⟨fun _ _ _ hv => h.1 _ (lookup_some_mem hv), h.2⟩
 
 theorem effectiveCapacity_eq {st : CfgState} (h : Coherent st) (e : Str) (c : Int) :
     st.effectiveCapacity e c = getBondingCapacity st.currentTable e c := by
